@@ -1572,6 +1572,8 @@ class Interp:
                     if isinstance(v, T) and v.op == "un" and v.args[0] == "-":
                         return v.args[1]
                     return self.mk("un", ("-", v))
+                if last in ("asarray", "array") and len(args) == 1 and not kwargs and isinstance(args[0], T):
+                    return args[0]              # the same values (no dtype requested)
                 if last == "shape" and len(args) == 1 and not kwargs and isinstance(args[0], T):
                     return self.mk("attr", (args[0], "shape"))
             except EvalError:
